@@ -133,9 +133,13 @@ class kern_tokenize:
 @contract(TZ + 'BekernTokenizer.tokenize', props=ALLP + ['C12'])
 class bekern_tokenize:
     """bekern(token) == Export(token, selected categories minus DECORATION): the full encoding with the signifiers removed
-    note by note (every note of a chord is kept); non-note tokens are identical to ekern"""
+    note by note (every note of a chord is kept); non-note tokens are identical to ekern.  This contract covers every token class
+    but notes, chords and compound tokens and provides the model used at call sites; notes, rests and chords of up to three notes: contract
+    bekern_tokenize_notes (the string surgery, proved); larger chords: bounded contract bekern_large_chords."""
     def inputs(g):
-        return tokenizer_inputs(g, BekernTokenizer)
+        kind = g.choice('token', [k for k in TOKEN_KINDS if k not in ('note', 'chord', 'compound')])
+        cats = g.enum_set('cats', TokenCategory)
+        return {'self': g.new(BekernTokenizer, {'token_categories': cats}, None), 'token': mk_any_token(g, kind)}
 
     modifies = ()
 
@@ -323,3 +327,87 @@ class header_generator:
     def post_header(result, token, type):
         return conj(result.encoding == '**' + PREFIX_OF[type.name] + token.encoding[2:], result.spine_id == token.spine_id,
                     result.category == TokenCategory.HEADER, result is not token)
+
+
+# ------------------------------------------------------------------------------------------------------- the note-by-note surgery of bekern
+from contracts.shapes import SUB_CORPUS, pd_pair_ok
+from kernpy.core.tokens import Subtoken, NoteRestToken, ChordToken
+
+SEPARATOR_FREE = ('domain: the texts of the sub-tokens of a note contain none of the three separator characters (space, @, ·) and are '
+                  'not empty -- what the kern grammar produces; the string surgery of BekernTokenizer splits the rendered text at them')
+
+
+def mk_clean_subtoken(e, cats):
+    cat = e.enum_in('category', TokenCategory, cats)
+    enc = e.str_for('encoding', cat, SUB_CORPUS)
+    e.assume(len(enc) > 0)
+    e.assume(not (' ' in enc))
+    e.assume(not ('@' in enc))
+    e.assume(not ('·' in enc))
+    return e.new(Subtoken, {'encoding': enc, 'category': cat}, (enc, cat))
+
+
+def mk_clean_note(g, name):
+    from contracts.spec_tokens import PD_CATS
+    pd = g.seq(name + '.pd', lambda e: mk_clean_subtoken(e, PD_CATS), None, pd_pair_ok)
+    dec = g.seq(name + '.dec', lambda e: mk_clean_subtoken(e, [TokenCategory.DECORATION]))
+    g.assume(len(pd) > 0)
+    enc = g.str_sym(name + '.encoding', ['4c', '8dd#L'])
+    return g.new(NoteRestToken, {'encoding': enc, 'category': TokenCategory.NOTE_REST, 'hidden': False,
+                                 'pitch_duration_subtokens': pd, 'decoration_subtokens': dec}, (enc, pd, dec))
+
+
+@contract(TZ + 'BekernTokenizer.tokenize', props=ALLP + ['C12'], name='bekern_tokenize_notes', use_at_calls=False)
+class bekern_tokenize_notes:
+    """the string surgery of bekern on notes, rests and chords of up to three notes: the rendered text is cut at the spaces (one piece
+    per note), every piece loses what follows its first '·' and a trailing '@': what remains is the note without its signifiers,
+    and no note of a chord is lost (C04).  Any number of sub-tokens and signifiers per note."""
+    assumes = (SEPARATOR_FREE, 'domain: chords of 1..3 notes (the loop over the notes of the rendered text is unrolled)')
+
+    def inputs(g):
+        n = g.choice('notes', [-1, 0, 1, 2, 3])        # -1: a compound token, 0: a single note or rest
+        cats = g.enum_set('cats', TokenCategory)
+        if n == -1:
+            from kernpy.core.tokens import CompoundToken
+            subs = g.seq('compound.subs', lambda e: mk_clean_subtoken(e, list(TokenCategory)))
+            enc, cat = g.str_sym('compound.encoding', ['abc']), g.enum('compound.category', TokenCategory)
+            token = g.new(CompoundToken, {'encoding': enc, 'category': cat, 'hidden': False, 'subtokens': subs}, (enc, cat, subs))
+        elif n == 0:
+            token = mk_clean_note(g, 'note')
+        else:
+            notes = [mk_clean_note(g, f'n{k}') for k in range(n)]
+            enc = g.str_sym('chord.encoding', ['4c 4e'])
+            token = g.new(ChordToken, {'encoding': enc, 'category': TokenCategory.CHORD, 'hidden': False, 'notes_tokens': notes},
+                          (enc, TokenCategory.CHORD, notes))
+        return {'self': g.new(BekernTokenizer, {'token_categories': cats}, None), 'token': token}
+
+    modifies = ()
+
+    def requires(self, token):
+        return keeps_some_pd(token, in_cats(self))
+
+    def post_basic_view(result, self, token):
+        return result == basic_spec(token, in_cats(self))
+
+
+@contract(None, props=ALLP, bounded='random chords of 4..7 notes, random sub-tokens from the corpus, random category selections (the proved contract covers chords of up to three notes)')
+class bekern_large_chords:
+    """the basic view of a chord of any size keeps every note (C04)"""
+    def inputs(g):
+        import random as _r
+        from contracts.shapes import SUB_CORPUS as C
+        rng = g.seeded_rng('chord.seed')
+        notes = []
+        for _ in range(rng.randint(4, 7)):
+            pd = [Subtoken(rng.choice(C[TokenCategory.DURATION]), TokenCategory.DURATION) for _ in range(rng.randint(0, 2))]
+            pd.append(Subtoken(rng.choice(C[TokenCategory.PITCH]), TokenCategory.PITCH))
+            if rng.random() < 0.4:
+                pd.append(Subtoken(rng.choice(C[TokenCategory.ALTERATION]), TokenCategory.ALTERATION))
+            dec = [Subtoken(d, TokenCategory.DECORATION) for d in rng.sample(C[TokenCategory.DECORATION], rng.randint(0, 3))]
+            notes.append(NoteRestToken('x', pd, dec))
+        cats = {c for c in TokenCategory if rng.random() < 0.8} | {TokenCategory.PITCH}
+        return {'token': ChordToken('chord', TokenCategory.CHORD, notes), 'cats': cats}
+
+    def post_every_note_kept_without_signifiers(token, cats):
+        got = BekernTokenizer(token_categories=cats).tokenize(token)
+        return got == basic_spec(token, lambda c: c in cats)
